@@ -201,3 +201,21 @@ def _run_loop_scenario(chk, pid, S, fi, host, calls, scen):
             chk.ob("C16.R3", ok, BACKTEST, host, "update-before-gate", "the strategy keeps being updated on every date (also after bankruptcy), before the gate is evaluated", where=first.where)
             extra = [l for l in plain(r.guard) if not (l[0][0] == "fld" and l[0][2] == "bankrupt") and l not in plain(first.guard) and not sym.lit_holds(sym.sat(scen), l[0], l[1])]
             chk.ob("C16.R3", not extra, BACKTEST, host, "run-gate-only-bankrupt", "a solvent strategy's algos run on every date", where=r.where, found=sym.fmt_guard(extra))
+
+
+def additional_data_only_prepended(chk):
+    """C04.R6: additional data bound by name is only given the synthetic first row - never re-indexed, shifted or filled
+    (a sparse signal / weight / stat frame must stay sparse: the algos reading it rely on 'no row at now' to do nothing)."""
+    P = chk.summary("bt/backtest.py", "Backtest", "_process_data", host="Backtest")
+    for e in P.events:
+        if e.kind == "store" and e.loops:
+            v = e.value
+            ok = v[0] == "call" and v[1] in ("pd.concat",) and v[2] and v[2][0][0] == "list" and len(v[2][0]) == 3
+            if ok:
+                # the second piece is the entry itself, whole and unshifted: d[k] or the value of the (k, value) pair being iterated
+                old = v[2][0][2]
+                idx = e.index
+                ok = (old[0] == "sub" and canon(old[2]) == canon(idx)) or (old[0] == "item" and old[2] == 1 and isinstance(idx, tuple) and idx[0] == "item" and idx[2] == 0 and canon(idx[1]) == canon(old[1]))
+            chk.ob("C04.R6", ok, "bt/backtest.py", "Backtest._process_data", "additional-data-only-prepended", "additional data is only given the synthetic first row: rows are never shifted", where=e.where,
+                   found=short(v, 140))
+
